@@ -629,6 +629,13 @@ func (l *Loader) AddCircuitIDSubscriber(circuitID []byte, assignment *PoolAssign
 	if l.circuitIDSubscribers == nil {
 		return fmt.Errorf("circuit_id_subscribers map not loaded")
 	}
+	// The fast path only builds a key for circuit-IDs of up to CircuitIDKeyLen
+	// bytes (longer ones fall back to the MAC lookup). Filing a longer one under
+	// its first CircuitIDKeyLen bytes would make the entry answer for every
+	// circuit-ID that shares them - another subscriber's line.
+	if len(circuitID) > CircuitIDKeyLen {
+		return fmt.Errorf("circuit-id of %d bytes does not fit the %d-byte fast path key", len(circuitID), CircuitIDKeyLen)
+	}
 	key := MakeCircuitIDKey(circuitID)
 	return l.circuitIDSubscribers.Put(&key, assignment)
 }
@@ -638,6 +645,11 @@ func (l *Loader) RemoveCircuitIDSubscriber(circuitID []byte) error {
 	if l.circuitIDSubscribers == nil {
 		return fmt.Errorf("circuit_id_subscribers map not loaded")
 	}
+	if len(circuitID) > CircuitIDKeyLen {
+		// never installed (see AddCircuitIDSubscriber); the truncated key may
+		// belong to another subscriber
+		return nil
+	}
 	key := MakeCircuitIDKey(circuitID)
 	return l.circuitIDSubscribers.Delete(&key)
 }
@@ -646,6 +658,9 @@ func (l *Loader) RemoveCircuitIDSubscriber(circuitID []byte) error {
 func (l *Loader) GetCircuitIDSubscriber(circuitID []byte) (*PoolAssignment, error) {
 	if l.circuitIDSubscribers == nil {
 		return nil, fmt.Errorf("circuit_id_subscribers map not loaded")
+	}
+	if len(circuitID) > CircuitIDKeyLen {
+		return nil, fmt.Errorf("circuit-id of %d bytes has no fast path entry", len(circuitID))
 	}
 	key := MakeCircuitIDKey(circuitID)
 	var assignment PoolAssignment
